@@ -1,6 +1,6 @@
 (** C16 — executable definitions on top of the treap model of C03: heap order, height, in-order priorities,
-    the Cartesian tree of a priority sequence, the priority generator of treap_node.rs (thread-local
-    LCG seeded with 42, raw = state ^ (state >> 32) after the step, priority = low 32 bits), and the named
+    the Cartesian tree of a priority sequence, the priority generator of treap_node.rs (one process-wide
+    LCG behind a mutex, seeded with 42 - the executor puts it back to the seed at the start of every line -, raw = state ^ (state >> 32) after the step, priority = low 32 bits), and the named
     adversarial insertion families.  Definitions only. *)
 From Coq Require Import ZArith NArith List Bool.
 From RlibV Require Import C03.Model.
@@ -78,21 +78,28 @@ Definition pv := (Z * Z)%type.
 (** kind 0 treats every modification as an addition *)
 Definition md0_act (m : amod) (e : Z) : Z := e + md0 m.
 Definition pact (act : amod -> Z -> Z) (m : amod) (e : pv) : pv := (fst e, act m (snd e)).
+(** the caller's modifications of an item it holds (before from_item / insert_at), applied to its value in order *)
+Definition cacts (act : amod -> Z -> Z) (ms : list amod) (v : Z) : Z := fold_left (fun e m => act m e) ms v.
 Fixpoint ptake (c : Z) (l : list pv) : list pv :=
   match l with [] => [] | x :: xs => if snd x <? c then x :: ptake c xs else [] end.
 Fixpoint pdrop (c : Z) (l : list pv) : list pv :=
   match l with [] => [] | x :: xs => if snd x <? c then pdrop c xs else l end.
 
+(** [firstn k xs ++ skipn (k+1) xs], evaluated without building a unary number larger than the list (C16/ProofsHist.v: premove_eq) *)
+Definition premove {X : Type} (k : Z) (xs : list X) : list X :=
+  match znth k xs with Some _ => firstn (Z.to_nat k) xs ++ skipn (S (Z.to_nat k)) xs | None => xs end.
+Arguments premove : simpl never.
+
 Definition pstep (act : amod -> Z -> Z) (st : list (list pv)) (ps : list Z) (o : cop)
   : option (list (list pv) * list Z) :=
   match o with
   | CNew => Some (st ++ [[]], ps)
-  | CFrom v => let '(p, ps') := next_prio ps in Some (st ++ [[(p, v)]], ps')
+  | CFrom v ms => let '(p, ps') := next_prio ps in Some (st ++ [[(p, cacts act ms v)]], ps')
   | CMerge i j =>
     match take2 i j st with Some (a, b, rest) => Some (rest ++ [a ++ b], ps) | None => Some (st, ps) end
   | CSplitAt i k =>
     match take1 i st with
-    | Some (xs, rest) => Some (rest ++ [firstn (Z.to_nat k) xs; skipn (Z.to_nat k) xs], ps)
+    | Some (xs, rest) => Some (rest ++ [zfirstn k xs; zskipn k xs], ps)
     | None => Some (st, ps)
     end
   | CSplitBy i c =>
@@ -101,15 +108,15 @@ Definition pstep (act : amod -> Z -> Z) (st : list (list pv)) (ps : list Z) (o :
       if forallb (fun x => negb (snd x <? c)) (pdrop c xs) then Some (rest ++ [ptake c xs; pdrop c xs], ps) else None
     | None => Some (st, ps)
     end
-  | CInsert i k v =>
+  | CInsert i k v ms =>
     match nth_error st i with
     | Some xs => let '(p, ps') := next_prio ps in
-                 Some (replace_nth i (firstn (Z.to_nat k) xs ++ (p, v) :: skipn (Z.to_nat k) xs) st, ps')
+                 Some (replace_nth i (zfirstn k xs ++ (p, cacts act ms v) :: zskipn k xs) st, ps')
     | None => Some (st, ps)
     end
   | CRemove i k =>
     match nth_error st i with
-    | Some xs => Some (replace_nth i (firstn (Z.to_nat k) xs ++ skipn (S (Z.to_nat k)) xs) st, ps)
+    | Some xs => Some (replace_nth i (premove k xs) st, ps)
     | None => Some (st, ps)
     end
   | CMod i m =>
@@ -118,17 +125,17 @@ Definition pstep (act : amod -> Z -> Z) (st : list (list pv)) (ps : list Z) (o :
     | None => Some (st, ps)
     end
   | CFirst _ | CLast _ | CCollect _ | CSize _ | CAgg _ => Some (st, ps)
-  (* remove_at on treap i, insert_at of the returned item on treap j: the value moves, its priority does not —
-     insert_at creates a new node, which draws the next priority *)
-  | CMove i k j k2 =>
+  (* remove_at on treap i, insert_at of the returned item (after the caller's modifications [ms]) on treap j: the
+     value moves, its priority does not — insert_at creates a new node, which draws the next priority *)
+  | CMove i k j k2 ms =>
     match nth_error st i, nth_error st j with
     | Some xs, Some _ =>
-      match nth_error xs (Z.to_nat k) with
+      match znth k xs with
       | Some pvx =>
         let st1 := replace_nth i (firstn (Z.to_nat k) xs ++ skipn (S (Z.to_nat k)) xs) st in
         match nth_error st1 j with
         | Some ys => let '(p, ps') := next_prio ps in
-                     Some (replace_nth j (firstn (Z.to_nat k2) ys ++ (p, snd pvx) :: skipn (Z.to_nat k2) ys) st1, ps')
+                     Some (replace_nth j (zfirstn k2 ys ++ (p, cacts act ms (snd pvx)) :: zskipn k2 ys) st1, ps')
         | None => Some (st1, ps)
         end
       | None => Some (st, ps)     (* remove_at panicked: same sequences, nothing inserted *)
